@@ -1653,6 +1653,16 @@ def rule_single_field_stride(ctx):
             ast_walk(loop_body(lp), vis)
             if not (arm and adv):
                 continue
+            # of the two factors, the piece's record count is the one the loop also books on its own (`done += chunk`)
+            counts = set()
+            for e, _k in seq_of(loop_body(lp)):
+                for x in walk(e, True):
+                    if x[0] == "asg" and x[1] == "+=" and kind(strip(x[3])) == "var":
+                        counts.add(strip(x[3])[1])
+            sizes = [v for v in adv[1] if v not in counts]
+            if len(sizes) != 1:
+                continue
+            adv = (adv[0], sizes, adv[2], adv[1])
             n += 1
             key = "ONEFIELD:%s:%s" % (f.name, adv[0])
             line = node_line(adv[2])
@@ -1670,8 +1680,8 @@ def rule_single_field_stride(ctx):
 
             ast_walk(ast, vis2)
             if ok:
-                ctx.holds("ONEFIELD", key, f.where(line), "`%s += %s * %s`: the record size has a definition under the single-field test, independent of the read list" % (adv[0], adv[1][0], adv[1][1]), nontrivial=True)
+                ctx.holds("ONEFIELD", key, f.where(line), "`%s += %s * %s`: the record size `%s` has a definition under the single-field test, independent of the read list" % (adv[0], adv[3][0], adv[3][1], adv[1][0]), nontrivial=True)
             else:
-                ctx.violated("ONEFIELD", key, f.where(line), "`%s += %s * %s` in a loop whose single-field arm ignores the read list, but the record size is only ever summed over the read list: with no VSsetfields it is 0 and the cursor never moves" % (adv[0], adv[1][0], adv[1][1]))
+                ctx.violated("ONEFIELD", key, f.where(line), "`%s += %s * %s` in a loop whose single-field arm ignores the read list, but the record size `%s` is only ever summed over the read list: with no VSsetfields it is 0 and the cursor never moves" % (adv[0], adv[3][0], adv[3][1], adv[1][0]))
     ctx.floor("ONEFIELD", 1, n, "(piece-wise loops with a single-field arm)")
     return n
